@@ -14,14 +14,14 @@ from . import drivers, tlc
 from .common import MachineryError, Result, scratch, use_repo
 
 CLAUSES = {
-    "C13": {"b64", "hex", "xor", "found:b64", "found:b64wrap", "found:atob", "found:Base64Decode", "found:FromBase64String", "found:hex",
+    "C13": {"b64", "hex", "xor", "psbytes", "found:b64", "found:b64wrap", "found:atob", "found:Base64Decode", "found:FromBase64String", "found:hex",
             "found:FromHexString", "found:xor"},
-    "C14": {"xml", "chr", "unescape", "utf16", "found:xmldec", "found:xmlhex", "found:xmlmix", "found:chr", "found:unescape", "found:utf16"},
+    "C14": {"xml", "chr", "unescape", "utf16", "found:xmldec", "found:xmlhex", "found:xmlmix", "found:utf16multi", "found:chr", "found:unescape", "found:utf16"},
     "C15": {"concat", "reverse", "replace", "found:concat", "found:reverse", "found:replace.method", "found:replace.vba",
             "found:replace.ps", "found:replace.js"},
 }
 LABELS = {
-    "C13": {"encoding.base64", "decoded.hexadecimal", "encoding.hexidecimal", "cipher.multibyte_xor"},
+    "C13": {"encoding.base64", "decoded.hexadecimal", "encoding.hexidecimal", "cipher.multibyte_xor", "<psbytes>"},
     "C14": {"unescape.xml", "function.chr", "function.unescape", "codec.uft-16"},
     "C15": {"concatenation", "reverse", "vba.reverse", "replace", "vba.replace"},
 }
@@ -39,7 +39,8 @@ def node_events(tree, labels: set[str]) -> list[dict]:
     def walk(n):
         for c in n.children:
             lab = c.obfuscation
-            if lab in labels or (lab.startswith("cipher.xor") and "cipher.multibyte_xor" in labels):
+            if lab in labels or (lab.startswith("cipher.xor") and "cipher.multibyte_xor" in labels) or (
+                    "<psbytes>" in labels and lab == "" and c.type == "powershell.bytes" and n.type != "powershell.bytes"):
                 out.append({"kind": "node", "ty": c.type, "obf": lab, "obfb": b2l(lab.encode()), "cov": b2l(n.value[c.start:c.end]),
                             "val": b2l(c.value), "pval": b2l(n.value) if lab.startswith("cipher.") else [], "s": c.start, "e": c.end})
             walk(c)
@@ -97,7 +98,7 @@ def instances(prop: str, tier: str, rng: random.Random) -> list[dict]:
                 payloads += [bytes([fill]) * run + rb(rng, 30), rb(rng, 30) + bytes([fill]) * run]
         for p in payloads:
             add("b64", p, base64.b64encode(p))
-        for sep in (b"\n", b"\r\n", b"\r", b"&#13;&#10;", b"&#10;", b"&#13;\n", b"&#xD;\r\n"):
+        for sep in (b"\n", b"\r\n", b"\r", b"&#13;&#10;", b"&#10;", b"&#13;\n", b"&#xD;\r\n", b"<\x00  \x00", b"<\x00  \x00\r\n"):
             for width in (4, 16, 64, 76):
                 for n in (17, 48, 57, 100):
                     p = rb(rng, n)
@@ -167,6 +168,10 @@ def instances(prop: str, tier: str, rng: random.Random) -> list[dict]:
                     parts.append(rb(rng, rng.randint(1, 3), TEXT.replace(b"'", b"")))
             esc = b"".join(parts)
             add("unescape", b"", b"unescape('" + esc + b"')", escaped=b2l(esc))
+        ok16 = [c for c in range(256) if c > 8 and not 14 <= c <= 31 and not 127 <= c <= 159]
+        for a, b, c in ((7, 7, 0), (7, 6, 0), (9, 12, 8), (8, 8, 7)):
+            p = rb(rng, a, ok16) + b"\0" + rb(rng, b, ok16) + ((b"\0" + rb(rng, c, ok16)) if c else b"")
+            add("utf16multi", p, b"".join(bytes([x, 0]) for x in p))
         for n in list(range(5, 12)) + [20, 40]:
             for _ in range(4 if not big else 20):
                 p = rb(rng, n, [c for c in range(256) if c > 8 and not 14 <= c <= 31 and not 127 <= c <= 159])
@@ -281,6 +286,9 @@ def run(prop: str, tier: str) -> int:
         for kx in (0, 35, 255, 300):
             arr = b",".join(rng.choice([b"%d", b"0x%02x", b" %d"]) % rng.randrange(256) for _ in range(520))
             inputs.append(arr + b" | % { $_ -bxor " + str(kx).encode() + b" }")
+        for style in range(3):
+            vals = [rng.randrange(256) for _ in range(505)]
+            inputs.append(b",".join([b"%d", b"0x%02x", b" %d", b"\n%d"][(i * (style + 1)) % 4] % v for i, v in enumerate(vals)))
         for period in (1, 3, 4):
             key = rb(rng, period)
             plain = (b"This program cannot be run in DOS mode. " * 14)[:520]
